@@ -32,6 +32,10 @@ ADVERSARIAL = ['O(Brien', 'Smith)', '(both)', 'a\\b', 'trail\\', '\\(', 'Jo "J" 
                'x' * 199 + '\\' + 'y' * 60, 'ab(' * 90, '\\' * 260, 'q' * 198 + '()' + 'r' * 210, ('long (text) \\ ' * 30).strip()]
 
 
+# text with per-cent signs: the solution's container (configparser) gives % a meaning of its own
+PERCENT = ['100% sure', '50%% off', 'a%(b)s', '%', '%%', 'x %% y % z', '1% Club', 'Fifty%%%Off']
+
+
 def char_classes(texts):
     s = set()
     for t in texts:
@@ -41,6 +45,8 @@ def char_classes(texts):
             s.add('backslash')
         if '"' in t or "'" in t:
             s.add('quote')
+        if '%' in t:
+            s.add('percent')
         if len(t) > 30:
             s.add('long')
     return sorted(s)
@@ -167,8 +173,10 @@ def make_case(engine, seed, tight=None):
         for n, p in case['persona'].items():
             spec = simrun.input_spec_of(case['world'], n)
             if spec and spec['type'] == 'str' and rng.chance(0.6):
-                t = rng.pick(ADVERSARIAL)
+                t = rng.pick(PERCENT) if rng.chance(0.12) else rng.pick(ADVERSARIAL)
                 case['persona'][n] = {'text': t, 'typed': ['s', t.strip()], 'invalid': False}
+                if '%' in t and n not in case['file']:
+                    case['file'].append(n)      # given in the file (written %% there), not typed at the prompt
     else:
         from . import shipped_props
         case = shipped_props.make_case(seed, 'C19', flip_p=0.0)
@@ -179,7 +187,10 @@ def make_case(engine, seed, tight=None):
         for q in disc.monitor.prompted:
             spec = per.spec(q)
             if spec and spec['type'] == 'str' and rng.chance(0.4):
-                case['persona']['over'][q] = rng.pick(ADVERSARIAL)
+                t = rng.pick(PERCENT) if rng.chance(0.12) else rng.pick(ADVERSARIAL)
+                case['persona']['over'][q] = t
+                if '%' in t and q not in case['file']:
+                    case['file'].append(q)
     case['pipe'] = {'flatten': rng.chance(0.7), 'relayout': rng.randrange(1 << 32) if rng.chance(0.4) else None}
     return case
 
